@@ -302,12 +302,15 @@ def table_names_semantics():
     from pdb2pqr import forcefield
 
     defn = fixtures.pristine_definition()
-    dat = ["DA   N1  -0.7000 1.8000\n", "DA5  N1  -0.5000 1.7000\n", "DA3  N1  -0.6000 1.6000\n", "DAX  N1  -0.1000 1.1000\n", "ALA  CA   0.1000 1.9000\n", "ALX  CA   0.3000 1.3000\n"]
+    dat = ["DA   N1  -0.7000 1.8000\n", "DA5  N1  -0.5000 1.7000\n", "DA3  N1  -0.6000 1.6000\n", "DAX  N1  -0.1000 1.1000\n", "ALA  CA   0.1000 1.9000\n", "ALA  HB1  0.0100 1.1000\n", "ALA  HB2  0.0200 1.2000\n", "ALX  CA   0.3000 1.3000\n"]
     cases = [
         ("<residue><name>DA</name><useresname>DAX</useresname></residue>", [("DA", "N1", (-0.1, 1.1)), ("DA5", "N1", (-0.5, 1.7)), ("DA3", "N1", (-0.6, 1.6))]),
         ("<residue><name>AL</name><useresname>ALX</useresname></residue>", [("ALA", "CA", (0.1, 1.9))]),
         ("<residue><name>AL.</name><useresname>ALX</useresname></residue>", [("ALA", "CA", (0.3, 1.3))]),
         ("<residue><name>ALA</name><atom><name>CA</name><useatomname>CA</useatomname></atom></residue>", [("ALA", "CA", (0.1, 1.9)), ("DA", "N1", (-0.7, 1.8))]),
+        # atom aliases of one section are applied in document order: a renumbering chain (HB3 -> HB2, then HB2 -> HB1)
+        ("<residue><name>ALA</name><atom><name>HB3</name><useatomname>HB2</useatomname></atom><atom><name>HB2</name><useatomname>HB1</useatomname></atom></residue>", [("ALA", "HB3", (0.02, 1.2)), ("ALA", "HB2", (0.01, 1.1)), ("ALA", "CA", (0.1, 1.9))]),
+        ("<residue><name>ALA</name><atom><name>HB2</name><useatomname>HB1</useatomname></atom><atom><name>HB3</name><useatomname>HB2</useatomname></atom></residue>", [("ALA", "HB2", (0.01, 1.1)), ("ALA", "HB3", (0.01, 1.1))]),
     ]
     rows = 0
     violations = []
@@ -379,6 +382,11 @@ def obligations(tier):
     obs.append(Obligation("states-parse-neutral-termini", table_states, dict(ff="parse", residues=list(STATES) if tier == "thorough" else ["ASP", "CYS", "ALA", "PRO"], neutral=True), kind="table", group="states"))
     for ff, kind in (("amber", "rna"), ("amber", "dna")) if tier == "quick" else [(f, k) for k, ffs in (("rna", ("amber", "charmm", "parse", "tyl06")), ("dna", ("amber", "charmm", "tyl06"))) for f in ffs]:
         obs.append(Obligation(f"nucleic-state-{kind}-{ff}", h_nucleic_state, dict(ff=ff, kind=kind), group="nucleic-state", time_cap=1500))
+    # a run with --ligand: atoms of other hetero groups that have no force-field entry are neither written nor given values (C16's harness, distinct names)
+    from . import c16
+
+    for ff in (1,) if tier == "quick" else (0, 1, 2):
+        obs.append(Obligation(f"ligand-run-no-default-ff{ff}", c16.h_transfer, dict(ff=ff, collisions=False), group="no-default", time_cap=1200))
     obs.append(Obligation("names-semantics", table_names_semantics, {}, kind="table", group="names"))
     return obs
 
